@@ -1,8 +1,17 @@
-(* C20 — theorems (statements only; proofs in Lemmas.v / Proofs.v). *)
-From Coq Require Import List NArith Bool Arith.
+(* C20 — theorems (statements; proofs in Lemmas.v / Proofs.v / Main.v).
+
+   Setting of the c20_* theorems about runs: `clients` is any list of clients, each an arbitrary list of AutoAssign /
+   ReleaseIPs / ReleaseByHandle operations (each AutoAssign names its own node, use, namespace, requested pools,
+   per-request block limit); `evs` is ANY schedule: which client performs its next datastore access, with a
+   spurious CAS conflict or a crash before / after the access.  `completed cf clients evs i l` : client i has
+   returned the list l of (operation, result).  `final cf clients evs` : the datastore at that moment; H' with
+   `store_hist (final ..) H'` is a history of the writes that really happened, consistent with that datastore.
+   Domain (cfg_ok): pools pairwise disjoint, blocks not empty.  Single-client histories are the special case
+   clients = [ops]. *)
+From Coq Require Import List NArith Bool Arith Lia.
 From Verif.Common Require Import Cas.
 From Verif.C19 Require Import Model.
-From Verif.C20 Require Import Model Spec Lemmas.
+From Verif.C20 Require Import Model Spec Lemmas Proofs Main.
 Import ListNotations.
 Open Scope N_scope.
 
@@ -15,18 +24,138 @@ Theorem c20_pool_selection_meets_spec : forall cf q sel p,
 Proof. exact allowed_meets_spec. Qed.
 Print Assumptions c20_pool_selection_meets_spec.
 
-(* allocationBlock.autoAssign with any reservation filter: every address it hands out was free, is not reserved,
-   carries the block's mask; at most num addresses; with the affinity check the block is affine to the host. *)
-Theorem c20_block_autoassign : forall resv b num h tag ac host b' ips,
-  blk_auto_assign_r resv b num h tag ac host = Some (b', ips) ->
-  (length ips <= num)%nat /\
-  (ac = true -> bk_aff b = Some host) /\
-  (forall a l, In (a, l) ips ->
-     exists o, In o (bk_unalloc b) /\ a = bk_cidr b + N.of_nat o /\ resv a = false /\ l = blk_plen b).
-Proof. intros. apply baa_spec in H. tauto. Qed.
-Print Assumptions c20_block_autoassign.
+(* Every automatically assigned address lies in an enabled pool allowed for the request's use, node and namespace
+   (and among the requested pools if any were given). *)
+Theorem c20_in_allowed_pool : forall cf clients evs i l q ips e a plen,
+  cfg_ok cf -> completed cf clients evs i l -> In (OpAutoAssign q, RIPs ips e) l -> In (a, plen) ips ->
+  spec_allowed cf q a = true.
+Proof.
+  intros cf clients evs i l q ips e a plen OK C Hin Ha.
+  destruct (completed_good cf clients evs i l q ips e OK C Hin) as (H' & _ & _ & F).
+  rewrite Forall_forall in F. eapply good_in_allowed. apply (F _ Ha).
+Qed.
+Print Assumptions c20_in_allowed_pool.
 
-(* the limit autoAssign enforces is the more restrictive of the global and the per-request value, 20 by default *)
+(* ... is never inside a reservation *)
+Theorem c20_not_reserved : forall cf clients evs i l q ips e a plen,
+  cfg_ok cf -> completed cf clients evs i l -> In (OpAutoAssign q, RIPs ips e) l -> In (a, plen) ips ->
+  reserved cf a = false.
+Proof.
+  intros cf clients evs i l q ips e a plen OK C Hin Ha.
+  destruct (completed_good cf clients evs i l q ips e OK C Hin) as (H' & _ & _ & F).
+  rewrite Forall_forall in F. destruct (F _ Ha) as (p & c & o & rev & b2 & G). tauto.
+Qed.
+Print Assumptions c20_not_reserved.
+
+(* ... and comes back with the mask of its block: the address is ordinal o of a block c of an allowed pool p, the
+   returned mask length is that of p's blocks, and a version of block c (stored under its own CIDR) with exactly
+   that many addresses was written to the datastore *)
+Theorem c20_block_mask_returned : forall cf clients evs i l q ips e a plen,
+  cfg_ok cf -> completed cf clients evs i l -> In (OpAutoAssign q, RIPs ips e) l -> In (a, plen) ips ->
+  exists H' p c o rev b,
+    Cas.store_hist (final cf clients evs) H' /\
+    In p (g_pools cf) /\ spec_pool_allowed cf q p = true /\ is_block p c /\
+    a = c + N.of_nat o /\ (o < p_bsize p)%nat /\ plen = (32 - Nat.log2 (p_bsize p))%nat /\
+    H' rev = Some (KBlock c, VBlock b) /\ bk_cidr b = c /\ length (bk_allocs b) = p_bsize p.
+Proof.
+  intros cf clients evs i l q ips e a plen OK C Hin Ha.
+  destruct (completed_good cf clients evs i l q ips e OK C Hin) as (H' & SH & _ & F).
+  rewrite Forall_forall in F. destruct (F _ Ha) as (p & c & o & rev & b2 & G).
+  destruct G as (Ip & Ig & IB & EA & OB & INP & RV & EL & HR & LEN & ST & CB).
+  assert (SP : spec_pool_allowed cf q p = true).
+  { unfold allowed in Ip. destruct (determine_pools cf q) as [sel|] eqn:D; [|destruct Ip].
+    eapply allowed_meets_spec; eauto. }
+  exists H', p, c, o, rev, b2. split; [exact SH|]. repeat split; auto.
+Qed.
+Print Assumptions c20_block_mask_returned.
+
+(* With StrictAffinity no address comes from a block affine to another host: the write that recorded the address
+   wrote a version of its block whose affinity is the requesting host's ("host:<node>", or "virtual:<node>" for
+   LoadBalancer requests). *)
+Theorem c20_strict_affinity : forall cf clients evs i l q ips e a plen,
+  cfg_ok cf -> g_strict cf = true ->
+  completed cf clients evs i l -> In (OpAutoAssign q, RIPs ips e) l -> In (a, plen) ips ->
+  exists H' c rev b,
+    Cas.store_hist (final cf clients evs) H' /\ H' rev = Some (KBlock c, VBlock b) /\ bk_cidr b = c /\
+    c <= a < c + N.of_nat (length (bk_allocs b)) /\ bk_aff b = Some (host_of q).
+Proof.
+  intros cf clients evs i l q ips e a plen OK STR C Hin Ha.
+  destruct (completed_good cf clients evs i l q ips e OK C Hin) as (H' & SH & _ & F).
+  rewrite Forall_forall in F. destruct (F _ Ha) as (p & c & o & rev & b2 & G).
+  destruct G as (Ip & Ig & IB & EA & OB & INP & RV & EL & HR & LEN & ST & CB).
+  exists H', c, rev, b2. split; [exact SH|]. repeat split; auto; rewrite ?LEN; subst a; lia.
+Qed.
+Print Assumptions c20_strict_affinity.
+
+(* Requests fail / return fewer addresses rather than violate the limits: whatever error class the call returns
+   (none, block limit, anything else), it returns at most the requested number of addresses and every one of
+   them satisfies all clauses above; a request for which no pool is allowed returns no address ... *)
+Theorem c20_fail_rather_than_violate : forall cf clients evs i l q ips e,
+  cfg_ok cf -> completed cf clients evs i l -> In (OpAutoAssign q, RIPs ips e) l ->
+  (length ips <= q_num q)%nat /\
+  (forall a plen, In (a, plen) ips -> spec_allowed cf q a = true /\ reserved cf a = false) /\
+  (forallb (fun p => negb (spec_pool_allowed cf q p)) (g_pools cf) = true -> ips = []).
+Proof.
+  intros cf clients evs i l q ips e OK C Hin.
+  destruct (completed_good cf clients evs i l q ips e OK C Hin) as (H' & _ & LE & F).
+  split; [exact LE|]. rewrite Forall_forall in F. split.
+  - intros a plen Ha. split; [eapply good_in_allowed; apply (F _ Ha)|].
+    destruct (F _ Ha) as (p & c & o & rev & b2 & G). tauto.
+  - intros NONE. destruct ips as [|[a plen] t]; auto. exfalso.
+    destruct (F (a, plen) (or_introl eq_refl)) as (p & c & o & rev & b2 & G).
+    destruct G as (Ip & Ig & _).
+    assert (SP : spec_pool_allowed cf q p = true).
+    { unfold allowed in Ip. destruct (determine_pools cf q) as [sel|] eqn:D; [|destruct Ip].
+      eapply allowed_meets_spec; eauto. }
+    rewrite forallb_forall in NONE. specialize (NONE _ Ig). rewrite SP in NONE. discriminate.
+Qed.
+Print Assumptions c20_fail_rather_than_violate.
+
+(* ... and does not touch the datastore at all: the operation is a bare return *)
+Theorem c20_no_pool_no_access : forall cf q, allowed cf q = [] -> auto_assign cf q = Ret (RIPs [] EOther).
+Proof. exact no_pool_no_access. Qed.
+Print Assumptions c20_no_pool_no_access.
+
+(* Every reachable datastore (any clients, any schedule): each block is stored under its own CIDR, is a block of a
+   configured pool with that pool's block size, and its free list stays inside it; each affinity names a pool block. *)
+Theorem c20_store_invariant : forall cf clients evs en,
+  cfg_ok cf -> In en (st_ents (final cf clients evs)) -> VI cf (e_key en) (e_val en).
+Proof. intros cf clients evs en [D B]. apply reachable_values; auto. Qed.
+Print Assumptions c20_store_invariant.
+
+(* Block cap.  The limit the code enforces is the specification's cap ... *)
 Theorem c20_effective_cap : forall cf q, eff_maxblocks cf q = spec_cap cf q.
 Proof. exact eff_maxblocks_spec. Qed.
 Print Assumptions c20_effective_cap.
+
+(* ... but it is compared with the number of the host's affine blocks INSIDE the pools usable by the request, so "a
+   host never holds more affine blocks than MaxBlocksPerHost", read over all blocks of the host, is false of the
+   faithful model (and of the code: known finding block-cap-counts-only-allowed-pools): pools A (Workload) and B
+   (Tunnel), MaxBlocksPerHost = 1, node 0 asks for a Workload and then a Tunnel address; both succeed and the
+   node holds two affine blocks. *)
+Theorem c20_block_cap_refuted :
+  let '(s, rs) := run_ops cap_cfg init_store cap_ops in
+  rs = [RIPs [(167772416, 30%nat)] ENone; RIPs [(167772672, 30%nat)] ENone] /\
+  count_affs (snap_of (st_ents s)) 0 (fun _ => true) = 2%nat /\ g_maxblocks cap_cfg = 1%nat.
+Proof. exact cap_literal_refuted. Qed.
+Print Assumptions c20_block_cap_refuted.
+
+(* A fact about the code, not a defect: when the request names pools, the node selector is ignored (determinePools:
+   "for backwards compatibility").  Node 0 has no labels, the pool requires has(k0): without requested pools the
+   request fails, with the pool named it is served from it. *)
+Theorem c20_requested_pools_bypass_selectors :
+  snd (run init_store (auto_assign byp_cfg (byp_req []))) = RIPs [] EOther /\
+  snd (run init_store (auto_assign byp_cfg (byp_req [(167772416, 8)]))) = RIPs [(167772416, 30%nat)] ENone.
+Proof. exact requested_bypass. Qed.
+Print Assumptions c20_requested_pools_bypass_selectors.
+
+(* the hypotheses are satisfiable: cap_cfg is in the domain *)
+Example c20_domain_inhabited : cfg_ok cap_cfg.
+Proof.
+  split.
+  - intros p p' a [<-|[<-|[]]] [<-|[<-|[]]] A B; auto; exfalso;
+      unfold in_pool, p_size in A, B; simpl in A, B;
+      apply andb_true_iff in A; apply andb_true_iff in B; destruct A as [A1 A2], B as [B1 B2];
+      apply N.leb_le in A1, B1; apply N.ltb_lt in A2, B2; lia.
+  - intros p [<-|[<-|[]]]; simpl; lia.
+Qed.
